@@ -206,8 +206,9 @@ def run(ctx):
             if abs(v - ref) > 1e-12 + 1e-9 * ref:
                 viol.append((k, a, n, v, "NormalDistribution(x) differs from Phi(x) = %.15g" % ref))
         elif k == "student" and in_acc:
-            ref = true_quantile(lambda t: student_sf(t, n), a, -1e7, 1e7)
-            if abs(v - ref) > 5e-4 * max(1e-2, abs(ref)):
+            # (the oracle's own survival function loses ~1e-5 in t for very many degrees of freedom; 0.5 is exact by symmetry)
+            ref = 0.0 if a == 0.5 else true_quantile(lambda t: student_sf(t, n), a, -1e7, 1e7)
+            if abs(v - ref) > 5e-4 * max(1e-2, abs(ref)) + (2e-5 if n > 10000 else 0.0):
                 viol.append((k, a, n, v, "Student differs from the true quantile %.9g" % ref))
         elif k == "chi2" and in_acc:
             ref = true_quantile(lambda t: chi2_sf(t, n), a, 0, 50 * n + 1000)
